@@ -43,13 +43,13 @@ def run(tier):
     cs = list(range(2, 21)) + [32, 64] if not full else list(range(2, 41)) + [64, 100, 4096]
     cases, meta = [], []
 
-    def add(c, start, prog_lines, prog_hex, pre_cmds=(), tag="grid"):
+    def add(c, start, prog_lines, prog_hex, pre_cmds=(), tag="grid", mid_cmds=()):
         lens = [len(h) // 2 for h in prog_hex]
         total_max = sum(lens) + len(lens) * 16 + 64  # a pad is always shorter than the instruction it precedes
-        cmds = ["new 0 ext %d H 0xcc" % (start + total_max + 32)] + list(pre_cmds) + ["chunk 0 %d" % c, "setoff 0 %d" % start,
+        cmds = ["new 0 ext %d H 0xcc" % (start + total_max + 32)] + list(pre_cmds) + ["chunk 0 %d" % c] + list(mid_cmds) + ["setoff 0 %d" % start,
                 "asm 0 %s" % common.hx("\n".join(prog_lines)), "getoff 0", "dump 0 %d %d" % (start, start + total_max)]
         cases.append(cmds)
-        meta.append((c, start, prog_lines, prog_hex, lens, tag, len(pre_cmds)))
+        meta.append((c, start, prog_lines, prog_hex, lens, tag, len(pre_cmds) + len(mid_cmds)))
 
     clc = "f8"
     for c in cs:
@@ -71,12 +71,17 @@ def run(tier):
             pre = ["chunk 0 %d" % rnd.choice(cs), "chunk 0 0"]  # on, then off again, then the real size
         elif k % 3 == 2:
             pre = ["chunk 0 %d" % rnd.choice(cs)]  # resized
-        add(c, start, [p[0] for p in prog], [p[1] for p in prog], pre, "random")
+        # a counting call (succeeding or failing, any size) between the setting and the call must not change the setting
+        mid = []
+        if k % 4 == 3:
+            mid = ["cnt 0 %d %s" % (rnd.choice([0, 1, 2, 8, 13, 64]), common.hx("\n".join(["nop", "mov rax, rbx"] + (["bogus rax"] if rnd.random() < 0.3 else []))))]
+        add(c, start, [p[0] for p in prog], [p[1] for p in prog], pre, "random", mid)
     # chunk sizes below 2 disable fitting: output must be the plain code
     for c in (0, 1):
         for k in range(40):
             prog = [rnd.choice(allc) for _ in range(rnd.randrange(1, 30))]
-            add(c, rnd.choice([0, 3]), [p[0] for p in prog], [p[1] for p in prog], ["chunk 0 8"] if k % 2 else [], "disabled")
+            mid = ["cnt 0 %d %s" % (rnd.choice([0, 1, 8, 16]), common.hx("nop\nmov rax, rbx"))] if k % 4 >= 2 else []
+            add(c, rnd.choice([0, 3]), [p[0] for p in prog], [p[1] for p in prog], ["chunk 0 8"] if k % 2 else [], "disabled", mid)
     # ---- execution monitor: padding must not change what the code computes. Executable programs (register arithmetic on
     # caller-saved registers, multi-byte nops, no memory access) are run plain and fitted; both must return the same value.
     exlines = ["mov rax, 0x1122334455667788", "mov rcx, 0x1000000000000001", "add rax, rcx", "xor rdx, rdx", "lea rdx, [rax+rcx*2+0x10]", "add rax, rdx", "nop7", "nop11",
